@@ -859,7 +859,8 @@ impl Gen<'_> {
         }
         op.dataseed = self.r.next();
         op.datamode = match self.r.below(20) {
-            0..=7 => 0,
+            0..=6 => 0,
+            7 => 8,     // greyscale / letterbox / pillarbox / neutral-chroma top part
             8..=9 => 4, // structured planes: flat, identical rows / columns, row runs
             10..=14 => 1,
             15..=16 => 3,
@@ -915,6 +916,8 @@ impl Gen<'_> {
             op.p = c.cp;
         }
         op.dataseed = self.r.next();
+        // a fifth of the vectors handed to a float constructor carry spare capacity
+        op.consume = u64::from(op.dataseed % 5 == 0);
         let special = if self.prof == Profile::Safety { 30 } else { 8 };
         op.datamode = if self.r.pct(5) && class != CL_HSL {
             7 // grey pixels on quantisation boundaries
@@ -1060,7 +1063,7 @@ impl Gen<'_> {
 /// frames - construct, decode to a float image, encode back with the same subsampling - so
 /// that one Miri execution passes every plane-indexing path the library has (or a change
 /// adds) at least once. Sizes, paddings, targets and metadata come from the seed.
-fn generate_battery(seed: u64, r: &mut Rng) -> RunTrace {
+fn generate_battery(seed: u64, r: &mut Rng, big: bool) -> RunTrace {
     let slots = 12;
     let mut threads: Vec<Vec<Op>> = vec![Vec::new(), Vec::new()];
     for ty in 0..2u64 {
@@ -1108,6 +1111,44 @@ fn generate_battery(seed: u64, r: &mut Rng) -> RunTrace {
             enc.slot = ty + 6;
             enc.cfg = CfgI { ssx, ssy, ..threads[ty as usize][threads[ty as usize].len() - 2].cfg };
             threads[ty as usize].push(enc);
+        }
+        // one frame of a few thousand pixels (paths that exist only above a pixel-count
+        // threshold: lookup-table decodes, banded kernels), horizontally padded and with no row
+        // below the visible area - the layout in which "stride * height samples follow the
+        // origin" is false
+        if big && (ty == 0 || r.pct(25)) {
+            let (ssx, ssy) = r.pick(&[(0u64, 0u64), (1, 1), (1, 0)]);
+            let mut op = Op::blank(Kind::NewYuv);
+            op.which = ty;
+            op.slot = ty;
+            // (16-bit storage only at depth 8: 16 pixels per code value at 10 bits is 16 384
+            // pixels, minutes of Miri)
+            let bd = 8;
+            op.cfg = CfgI { bd, ssx, ssy, full: r.below(2), mc: 1 + r.below(N_STD_MATS), tc: 1 + r.below(N_SUP_TRCS), cp: 1 + r.below(10) };
+            let px = 16u64 << bd; // 16 pixels per code value: 4096 at 8 bits
+            let lw = (r.pick(&[64u64, 66, 72, 96, 128]) + 1) / 2 * 2;
+            let lh = ((px + lw - 1) / lw + r.below(3) + 1) / 2 * 2;
+            op.geo[0] = lw;
+            op.geo[1] = lh;
+            for pl in [2usize, 6] {
+                op.geo[pl] = lw >> ssx;
+                op.geo[pl + 1] = lh >> ssy;
+                op.geo[pl + 2] = ssx;
+                op.geo[pl + 3] = ssy;
+            }
+            for i in [10usize, 12, 14] {
+                op.geo[i] = r.range(1, 9); // xpad; ypad stays 0
+            }
+            op.padseed = r.next() | 1;
+            op.dataseed = r.next();
+            op.datamode = r.pick(&[0u64, 4, 8]);
+            threads[ty as usize].push(op);
+            // decode to Rgb by reference: the plane-unpacking stage without a transfer curve
+            let mut dec = Op::blank(Kind::Conv);
+            dec.which = ty;
+            dec.src = ty;
+            dec.slot = CONVS[dec.which as usize].dst + 6 * ty;
+            threads[ty as usize].push(dec);
         }
         // two frames with packed rows (`Plane::from_slice`: no alignment slack behind a row or
         // behind the buffer) and rows wide enough for chunked fast paths
@@ -1439,7 +1480,8 @@ pub fn generate_kind(seed: u64, prof: Profile, miri: bool, kind: Option<u64>) ->
         // two in five stay random mixes
         match kind {
             1 => return generate_float_battery(seed, &mut r),
-            0 | 3 => return generate_battery(seed, &mut r),
+            // (every other battery carries the frame of a few thousand pixels)
+            0 | 3 => return generate_battery(seed, &mut r, kind == 0),
             _ => {}
         }
     }
